@@ -136,18 +136,72 @@ def run_program(d, insts, sites, live, order):
 
 
 # ------------------------------------------------------------------------------------------ judging
-def eclass(cfg, inst):
+def ectx(cfg, inst):
     direct = any(w in ad.DIRECT for w in inst.uses["E"])
-    s = f"def={cfg['definer']}:E={cfg['ekind']}" + ("+direct" if direct else "")
-    if cfg["variant"] != "plain":
-        s += f":variant={cfg['variant']}"
-    return s
+    return f"def={cfg['definer']}:E={cfg['ekind']}" + ("+direct" if direct else "")
 
 
 def describe(cfg, inst):
     return (f"{ad.sym(inst)} ({ad.KNAME[inst.kind]}, defined in {cfg['definer']}) uses "
             f"E={{{','.join(inst.uses['E'])}}} A={{{','.join(inst.uses['A'])}}} B={{{','.join(inst.uses['B'])}}} "
             f"[{cfg['ekind']} {cfg['bind']} {cfg['variant']}]")
+
+
+def V(cfg, inst, cat, what, mix=None, extra=None, taker=None, way=None):
+    """One violation record; the key is assembled (and folded) from its parts."""
+    return dict(cat=cat, kind=ad.KNAME[inst.kind], kcode=inst.kind, ctx=ectx(cfg, inst), extra=extra, taker=taker,
+                way=way, variant=cfg["variant"], mix=mix, ekind=cfg["ekind"], what=what, idx=inst.idx,
+                nsites=sum(len(u) for u in inst.uses.values()))
+
+
+def keystr(p, variant=None, way=None, mix=0, nonpie=False):
+    variant = p["variant"] if variant is None else variant
+    way = p["way"] if way is None else way
+    mix = p["mix"] if mix == 0 else mix
+    ctx = p["ctx"].replace("E=pie", "E=nonpie") if nonpie else p["ctx"]
+    s = f"{p['cat']}:{p['kind']}:{ctx}"
+    if p["extra"]:
+        s += ":" + p["extra"]
+    if p["taker"]:
+        s += f":taker={p['taker']}"
+    if way:
+        s += f":way={way}"
+    if variant != "plain":
+        s += f":variant={variant}"
+    if mix:
+        s += f":mix={mix}"
+    return s
+
+
+def core_form(p):
+    """The core form an extra instruction form stands for (the one the quick tier enumerates)."""
+    w = p["way"]
+    if w in ("gotp", "gota"):
+        return "got"
+    if w == "iem":
+        return "ie"
+    if w == "callgot":
+        return "call"
+    if w in EDIRECT and p["taker"] == "E":
+        return "d32" if ad.KCLASS[p["kcode"]] == "func" and p["ekind"] == "nonpie" else "dpc"
+    return w
+
+
+def folded_key(p, present):
+    """A violation seen only under a variant flag / through an extra instruction form / in a mixed
+    program / with a PIE keeps its own key; when the same case already fails without the flag / through
+    the core form / in the all-wild program / with a non-PIE, it is counted under that key (one root
+    cause = few keys)."""
+    own = keystr(p)
+    gens = [(gv, gw, gm, ge) for gv in (True, False) for gw in (True, False) for gm in (True, False)
+            for ge in (True, False)]
+    gens.sort(key=lambda t: -sum(t))
+    for gv, gw, gm, ge in gens:
+        cand = keystr(p, variant="plain" if gv else None, way=core_form(p) if gw and p["way"] else None,
+                      mix=None if gm else 0, nonpie=ge)
+        if cand != own and cand in present:
+            return cand
+    return own
 
 
 _PRI_MOD = {"B": 0, "A": 1, "E": 2}
@@ -158,8 +212,8 @@ def ref_priority(st):
     return (_PRI_MOD[st.mod], _PRI_WAY.get(st.way, 2), st.sid)
 
 
-def judge(cfg, insts, sites, live, g, w, stats):
-    """-> list of (key, what, inst idx)."""
+def judge(cfg, insts, sites, live, g, w, stats, mix=None):
+    """g: GNU ld's program, w: the program under test. -> list of violation records."""
     viol = []
     obs = {}
     wrs = {}
@@ -167,15 +221,16 @@ def judge(cfg, insts, sites, live, g, w, stats):
         if st.idx not in live:
             continue
         (obs if st.role == "obs" else wrs).setdefault(st.idx, []).append(st)
+    by_sid = {s.sid: s for s in sites}
     gcr = {c[0] for c in g["crashed"]}
     for idx, sid, phase, rc in w["crashed"]:
         inst = insts[idx]
-        st = next(s for s in sites if s.sid == sid)
+        st = by_sid[sid]
         if idx in gcr:
             continue
-        viol.append((f"crash:{ad.KNAME[inst.kind]}:{eclass(cfg, inst)}:taker={st.mod}:way={st.way}",
-                     f"wild's program dies (rc={rc}) in phase {phase} at {st.mod}'s `{st.way}` site of "
-                     f"{describe(cfg, inst)}; GNU ld's program does not", idx))
+        viol.append(V(cfg, inst, "crash",
+                      f"the program dies (rc={rc}) in phase {phase} at {st.mod}'s `{st.way}` site of "
+                      f"{describe(cfg, inst)}; GNU ld's program does not", mix, taker=st.mod, way=st.way))
     for inst in insts:
         idx = inst.idx
         if idx not in live:
@@ -191,35 +246,50 @@ def judge(cfg, insts, sites, live, g, w, stats):
             stats["incomplete"] += 1
             continue
         stats["evaluations"] += 1
-        ec = eclass(cfg, inst)
-        kn = ad.KNAME[inst.kind]
+        exp0 = (ad.fn_id(inst), 0) if cls == "func" else ad.markers(inst)
+
+        def wa(s):
+            return w["addr"][(0, s.sid)]
+
+        def read_ok(s):
+            return w["reads"].get((0, s.sid)) == exp0
         # --- address identity, within GNU ld's equivalence classes
         groups = {}
         for s in asites:
             groups.setdefault(g["addr"][(0, s.sid)], []).append(s)
         if len(groups) > 1:
             stats["may_differ_instances"] += 1
-            stats["may_differ_classes"].add(f"{kn}:{ec}")
-        else:
-            mods = {s.mod for s in asites}
-            if len(mods) >= 2:
-                stats["nontrivial"].add((cfg["ekind"], cfg["bind"], cfg["definer"], cfg["variant"], inst.kind,
-                                         inst.uses["E"], inst.uses["A"], inst.uses["B"]))
+            stats["may_differ_classes"].add(f"{ad.KNAME[inst.kind]}:{ectx(cfg, inst)}:{cfg['variant']}")
+        elif len({s.mod for s in asites}) >= 2:
+            stats["nontrivial"].add((cfg["ekind"], cfg["bind"], cfg["definer"], cfg["variant"], inst.kind,
+                                     inst.uses["E"], inst.uses["A"], inst.uses["B"]))
+        blamed = set()
         for members in groups.values():
             if len(members) < 2:
                 continue
-            ref = min(members, key=ref_priority)
+            stats["pairs"] += len(members) - 1
+            by_addr = {}
             for s in members:
-                stats["pairs"] += 1
-                if w["addr"][(0, s.sid)] != w["addr"][(0, ref.sid)]:
-                    allw = " ".join(f"{x.mod}.{x.way}={w['addr'][(0, x.sid)]:#x}" for x in asites)
-                    allg = " ".join(f"{x.mod}.{x.way}={g['addr'][(0, x.sid)]:#x}" for x in asites)
-                    viol.append((f"addr-differs:{kn}:{ec}:taker={s.mod}:way={s.way}",
-                                 f"{describe(cfg, inst)}: {s.mod}.{s.way} sees {w['addr'][(0, s.sid)]:#x} but "
-                                 f"{ref.mod}.{ref.way} sees {w['addr'][(0, ref.sid)]:#x}; wild: {allw}; "
-                                 f"GNU ld (equal there): {allg}", idx))
+                by_addr.setdefault(wa(s), []).append(s)
+            if len(by_addr) == 1:
+                continue
+            # The reference view: the address behind which most modules find the entity, then the one
+            # most modules agree on, then the one a pure taker (B, then A) obtains through its GOT.
+            ref_addr = min(by_addr, key=lambda a: (-len({s.mod for s in by_addr[a] if read_ok(s)}),
+                                                   -len({s.mod for s in by_addr[a]}),
+                                                   min(ref_priority(s) for s in by_addr[a])))
+            ref = min(by_addr[ref_addr], key=ref_priority)
+            allw = " ".join(f"{x.mod}.{x.way}={wa(x):#x}" for x in asites)
+            allg = " ".join(f"{x.mod}.{x.way}={g['addr'][(0, x.sid)]:#x}" for x in asites)
+            for s in members:
+                if wa(s) != ref_addr:
+                    blamed.add(s.sid)
+                    viol.append(V(cfg, inst, "addr-differs",
+                                  f"{describe(cfg, inst)}: {s.mod}.{s.way} sees {wa(s):#x} but {ref.mod}.{ref.way} "
+                                  f"sees {ref_addr:#x}; program under test: {allw}; GNU ld's program (these sites "
+                                  f"equal there): {allg}", mix, taker=s.mod, way=s.way))
         # --- what is found behind the address (phase 0)
-        exp0 = (ad.fn_id(inst), 0) if cls == "func" else ad.markers(inst)
+        bad_target = False
         for s in obs.get(idx, []):
             gr, wr_ = g["reads"].get((0, s.sid)), w["reads"].get((0, s.sid))
             if gr != exp0 or wr_ is None:
@@ -230,14 +300,18 @@ def judge(cfg, insts, sites, live, g, w, stats):
                 if not ad.is_addr(s.way):
                     stats["plt_call_wrong"] += 1      # not an address observation: out of scope
                     continue
-                viol.append((f"wrong-target:{kn}:{ec}:taker={s.mod}:way={s.way}",
-                             f"{describe(cfg, inst)}: through {s.mod}.{s.way} (address "
-                             f"{w['addr'].get((0, s.sid), 0):#x}) the program finds {wr_[0]:#x},{wr_[1]:#x} instead "
-                             f"of the entity's {exp0[0]:#x},{exp0[1]:#x}", idx))
-        # --- writes
+                bad_target = True
+                if s.sid in blamed:
+                    continue                           # already reported as the differing view
+                viol.append(V(cfg, inst, "wrong-target",
+                              f"{describe(cfg, inst)}: through {s.mod}.{s.way} (address "
+                              f"{w['addr'].get((0, s.sid), 0):#x}) the program finds {wr_[0]:#x},{wr_[1]:#x} instead "
+                              f"of the entity's {exp0[0]:#x},{exp0[1]:#x}", mix, taker=s.mod, way=s.way))
+        # --- writes (a consequence of the above when addresses already differ: reported only otherwise)
         if cls == "func":
             continue
         cur = exp0
+        own_values = {exp0} | {ad.written(m, inst) for m in ad.MODULES}
         for n, wm in enumerate(ad.MODULES, 1):
             if any(s.mod == wm for s in wrs.get(idx, [])):
                 cur = ad.written(wm, inst)
@@ -248,11 +322,19 @@ def judge(cfg, insts, sites, live, g, w, stats):
                     continue
                 stats["write_reads"] += 1
                 if wr_ != cur:
+                    stats["write_invisible_reads"] += 1
+                    if blamed or bad_target:
+                        continue
+                    if wr_ is not None and wr_ not in own_values:
+                        # not an older value of this entity: another (broken) instance of the packed
+                        # program wrote here; that instance is reported where it is judged
+                        stats["clobbered_by_other_instance"] += 1
+                        continue
                     got = "nothing" if wr_ is None else f"{wr_[0]:#x},{wr_[1]:#x}"
-                    viol.append((f"write-invisible:{kn}:{ec}:writer={wm}:reader={s.mod}",
-                                 f"{describe(cfg, inst)}: after {wm} wrote {cur[0]:#x},{cur[1]:#x} through its "
-                                 f"view, {s.mod}.{s.way} reads {got} (phase {n}); GNU ld's program sees the write",
-                                 idx))
+                    viol.append(V(cfg, inst, "write-invisible",
+                                  f"{describe(cfg, inst)}: after {wm} wrote {cur[0]:#x},{cur[1]:#x} through its "
+                                  f"view, {s.mod}.{s.way} reads {got} (phase {n}); GNU ld's program sees the write",
+                                  mix, extra=f"writer={wm}:reader={s.mod}"))
     return viol
 
 
@@ -289,7 +371,8 @@ def static_oracle(cfg, insts, sites, live, gd, wd, w, stats):
         W = {m: _dyn_index(os.path.join(wd, f)) for m, f in (("E", "E"), ("A", "libA.so"), ("B", "libB.so"))}
     except (elfread.ElfError, OSError) as ex:
         stats["static_unreadable"] += 1
-        return [("static:unreadable-output", f"{cfg}: {ex}", None)]
+        stats["static_unreadable_message"] = str(ex)[:300]
+        return viol
     by_inst = {}
     for st in sites:
         if st.role == "obs" and st.idx in live:
@@ -302,7 +385,6 @@ def static_oracle(cfg, insts, sites, live, gd, wd, w, stats):
         ue = inst.uses["E"]
         if cls == "tls" or not any(x in EDIRECT for x in ue):
             continue
-        kn, ec = ad.KNAME[inst.kind], eclass(cfg, inst)
         gs, ws = G["E"][1].get(name), W["E"][1].get(name)
         if gs is None:
             continue
@@ -315,17 +397,17 @@ def static_oracle(cfg, insts, sites, live, gd, wd, w, stats):
                 e = W["E"][0]
                 if ws is None or ws.shndx != 0 or ws.value == 0 or not _exec_segment(e, ws.value):
                     have = "absent" if ws is None else f"st_shndx={ws.shndx} st_value={ws.value:#x}"
-                    viol.append((f"static:no-canonical-plt:{kn}:{ec}",
-                                 f"{describe(cfg, inst)}: E takes the address directly, so E's .dynsym entry must "
-                                 f"be undefined with st_value = its PLT entry; wild: {have}; GNU ld: st_shndx=0 "
-                                 f"st_value={gs.value:#x}", inst.idx))
+                    viol.append(V(cfg, inst, "static:no-canonical-plt",
+                                  f"{describe(cfg, inst)}: E takes the address directly, so E's .dynsym entry must "
+                                  f"be undefined with st_value = its PLT entry; wild: {have}; GNU ld: st_shndx=0 "
+                                  f"st_value={gs.value:#x}"))
                 else:
                     for st in by_inst.get(inst.idx, []):
                         if st.mod == "E" and st.way in EDIRECT and (0, st.sid) in w["addr"] \
                                 and w["addr"][(0, st.sid)] != ws.value:
-                            viol.append((f"static:canonical-plt-value:{kn}:{ec}",
-                                         f"{describe(cfg, inst)}: E.{st.way} observes {w['addr'][(0, st.sid)]:#x} but "
-                                         f"E's .dynsym st_value is {ws.value:#x}", inst.idx))
+                            viol.append(V(cfg, inst, "static:canonical-plt-value",
+                                          f"{describe(cfg, inst)}: E.{st.way} observes {w['addr'][(0, st.sid)]:#x} "
+                                          f"but E's .dynsym st_value is {ws.value:#x}", way=st.way, taker="E"))
         if cls == "data":
             gcopy = [r for r in G["E"][2].get(name, []) if r[0] == 5]
             if gcopy and gs.shndx != 0:
@@ -347,9 +429,9 @@ def static_oracle(cfg, insts, sites, live, gd, wd, w, stats):
                 if problem:
                     have = "absent" if ws is None else (f"st_shndx={ws.shndx} st_value={ws.value:#x} "
                                                         f"st_size={ws.size}")
-                    viol.append((f"static:copyreloc:{problem}:{kn}:{ec}",
-                                 f"{describe(cfg, inst)}: GNU ld copy-relocates it into E (size {gs.size}); wild's "
-                                 f"E .dynsym: {have}, relocs {W['E'][2].get(name)}", inst.idx))
+                    viol.append(V(cfg, inst, "static:copyreloc",
+                                  f"{describe(cfg, inst)}: GNU ld copy-relocates it into E (size {gs.size}); wild's "
+                                  f"E .dynsym: {have}, relocs {W['E'][2].get(name)}", extra=problem))
         if not lib_symbolic_required or inst.kind in ("pfn", "pdat") or cfg["variant"] in ("bsym", "bsymfn"):
             continue
         # every library reference must be symbolic (so that it finds E's PLT entry / copy)
@@ -368,22 +450,37 @@ def static_oracle(cfg, insts, sites, live, gd, wd, w, stats):
                 rs = by_sym.get(name, [])
                 ok = any(t in _SYMBOLIC for t, _, _ in rs)
             if not ok:
-                viol.append((f"static:lib-reloc-not-symbolic:{kn}:{ec}:lib={st.mod}:way={st.way}",
-                             f"{describe(cfg, inst)}: {st.mod}'s `{st.way}` reference has no symbolic dynamic "
-                             f"relocation (found {rs})", inst.idx))
+                viol.append(V(cfg, inst, "static:lib-reloc-not-symbolic",
+                              f"{describe(cfg, inst)}: {st.mod}'s `{st.way}` reference to this preemptible symbol "
+                              f"has no symbolic dynamic relocation (found {rs}), so it cannot find E's "
+                              f"{'PLT entry' if cls == 'func' else 'copy'}", extra=f"lib={st.mod}", way=st.way))
     return viol
 
 
 # ------------------------------------------------------------------------------------------ one member
 def new_stats():
-    return dict(evaluations=0, pairs=0, write_reads=0, may_differ_instances=0, may_differ_classes=set(),
-                nontrivial=set(), excluded_gnu_crash=0, excluded_gnu_read=0, excluded_gnu_write_invisible=0,
-                incomplete=0, plt_call_wrong=0, static_canonical_plt=0, static_copyreloc=0, static_lib_refs=0,
-                static_unreadable=0)
+    return dict(evaluations=0, pairs=0, write_reads=0, write_invisible_reads=0, may_differ_instances=0,
+                clobbered_by_other_instance=0, may_differ_classes=set(), nontrivial=set(), excluded_gnu_crash=0, excluded_gnu_read=0,
+                excluded_gnu_write_invisible=0, incomplete=0, plt_call_wrong=0, static_canonical_plt=0,
+                static_copyreloc=0, static_lib_refs=0, static_unreadable=0)
 
 
 def signature(inst, mod):
     return (inst.kind, mod, inst.uses[mod])
+
+
+MIXES = {"wildE+gnuAB": ("wild", "gnu"), "gnuE+wildAB": ("gnu", "wild")}
+
+
+def compose(d, name, dirs, e_from, lib_from):
+    md = os.path.join(d, name)
+    os.makedirs(md, exist_ok=True)
+    for f, src in (("E", e_from), ("libA.so", lib_from), ("libB.so", lib_from)):
+        dst = os.path.join(md, f)
+        if os.path.lexists(dst):
+            os.unlink(dst)
+        os.symlink(os.path.join(dirs[src], f), dst)
+    return md
 
 
 def run_member(item):
@@ -397,9 +494,10 @@ def run_member(item):
     order = ad.expected_order(insts, sites)
     live = set(i.idx for i in insts) if only is None else set(only)
     res = dict(cfg=cfg, tag=tag, n_instances=len(insts), n_sites=len(sites), viol=[], spawns=0,
-               gnu_rejects={}, wild_rejects={}, unevaluable=None, rounds=0)
+               gnu_rejects={}, wild_rejects={}, unevaluable=None, rounds=0, mix_unevaluable={})
     stats = new_stats()
-    res["stats"] = stats
+    mstats = new_stats()
+    res["stats"], res["mix_stats"] = stats, mstats
     while True:
         res["rounds"] += 1
         li = [i for i in insts if i.idx in live]
@@ -450,26 +548,33 @@ def run_member(item):
     else:
         res["viol"] = judge(cfg, insts, sites, live, g, w, stats)
         res["viol"] += static_oracle(cfg, insts, sites, live, gd, wd, w, stats)
-    res["insts"] = {i.idx: (ad.sym(i), i.uses) for i in insts if i.idx in {v[2] for v in res["viol"]}}
+    if not g["startup"] and cfg.get("mixes", True):
+        # The same modules recombined: isolates which wild-linked module breaks the identity.
+        for name, (e_from, lib_from) in MIXES.items():
+            md = compose(d, name, {"gnu": gd, "wild": wd}, e_from, lib_from)
+            m = run_program(md, insts, sites, live, order)
+            res["spawns"] += 1 + m["reruns"]
+            if m["startup"]:
+                res["mix_unevaluable"][name] = m["startup"][-300:]
+                continue
+            res["viol"] += judge(cfg, insts, sites, live, g, m, mstats, mix=name)
     res["sample"] = [dict(symbol=ad.sym(i), kind=ad.KNAME[i.kind], uses=i.uses) for i in li[::max(1, len(li) // 3)][:3]]
     res["wall"] = time.time() - t0
     return _pack(res)
 
 
 def _pack(res):
-    s = res["stats"]
-    s["may_differ_classes"] = sorted(s["may_differ_classes"])
-    s["nontrivial"] = list(s["nontrivial"])
-    # one representative (the instance with the fewest sites) per key
-    best = {}
-    for key, what, idx in res["viol"]:
-        n = sum(len(u) for u in res["insts"][idx][1].values()) if idx is not None and idx in res.get("insts", {}) else 0
-        if key not in best or n < best[key][0]:
-            best[key] = (n, what, idx)
-    counts = {}
-    for key, _, _ in res["viol"]:
-        counts[key] = counts.get(key, 0) + 1
-    res["viol"] = [(k, v[1], v[2], counts[k]) for k, v in sorted(best.items())]
+    for s in (res["stats"], res["mix_stats"]):
+        s["may_differ_classes"] = sorted(s["may_differ_classes"])
+        s["nontrivial"] = list(s["nontrivial"])
+    # one representative (the instance with the fewest sites) per own key, with the number of instances
+    best, counts = {}, {}
+    for p in res["viol"]:
+        k = keystr(p)
+        counts[k] = counts.get(k, 0) + 1
+        if k not in best or p["nsites"] < best[k]["nsites"]:
+            best[k] = p
+    res["viol"] = [dict(best[k], count=counts[k], own=k) for k in sorted(best)]
     return res
 
 
@@ -498,22 +603,23 @@ def replay(chk):
         doc = json.load(f)
     r = doc["replay"]
     cfg = r["member"]
+    hit = False
     with vlib.scratch("c38r") as base:
-        for only in ([r["instance"]] if r.get("instance") is not None else []) + [None]:
+        for only in ([[r["instance"]]] if r.get("instance") is not None else []) + [None]:
             res = run_member((cfg, base, only))
-            print(f"member {res['tag']} restricted to {only}: unevaluable={res['unevaluable']} "
+            print(f"member {res['tag']} restricted to instances {only}: unevaluable={res['unevaluable']} "
                   f"gnu_rejects={list(res['gnu_rejects'])} wild_rejects={list(res['wild_rejects'])}")
-            hit = False
-            for key, what, idx, n in res["viol"]:
-                mark = "<== recorded key" if key == doc["key"] else ""
-                print(f"  {key} x{n} {mark}\n    {what}")
-                if key == doc["key"]:
+            present = {p["own"] for p in res["viol"]}
+            for p in res["viol"]:
+                mark = "<== recorded" if r.get("own_key") in (p["own"], None) and not hit else ""
+                print(f"  {p['own']} x{p['count']} {mark}\n    {p['what']}")
+                if p["own"] == r.get("own_key") and not hit:
                     hit = True
-                    chk.violation(key, what, r)
+                    chk.violation(doc["key"], p["what"], r)
             if hit:
                 break
     chk.coverage = {"evaluations": 1, "distinct_nontrivial": 2, "rule": "replay of one recorded member",
-                    "samples": [r]}
+                    "samples": [r], "reproduced": hit}
     chk.finish()
 
 
@@ -527,60 +633,83 @@ def main():
     if chk.seed:
         import random
         random.Random(chk.seed).shuffle(mem)
-    tot = new_stats()
-    tot["may_differ_classes"] = set()
+    tot, mtot = new_stats(), new_stats()
     spawns = 0
-    uneval, gnu_rej, wild_rej, samples, per_member = {}, {}, {}, [], {}
-    seen_keys = {}
+    uneval, mix_uneval, gnu_rej, wild_rej, samples, per_member = {}, {}, {}, {}, [], {}
     with vlib.scratch("c38") as base:
         results = wildrun.pmap(run_member, [(m, base, None) for m in mem], procs=min(vlib.NPROC, 12), chunksize=1)
     n_inst = n_sites = 0
+    records = []
     for res in results:
         cfg = res["cfg"]
         spawns += res["spawns"]
         n_inst += res["n_instances"]
         n_sites += res["n_sites"]
-        s = res["stats"]
-        for k, v in s.items():
-            if isinstance(v, int):
-                tot[k] += v
-        tot["may_differ_classes"].update(s["may_differ_classes"])
-        tot["nontrivial"].update(tuple(tuple(x) if isinstance(x, list) else x for x in t) for t in s["nontrivial"])
-        per_member[res["tag"]] = dict(instances=res["n_instances"], sites=res["n_sites"], judged=s["evaluations"],
-                                      link_rounds=res["rounds"], wall_s=round(res["wall"], 1),
-                                      violations=sum(v[3] for v in res["viol"]))
+        for acc, s in ((tot, res["stats"]), (mtot, res["mix_stats"])):
+            for k, v in s.items():
+                if isinstance(v, int):
+                    acc[k] += v
+            acc["may_differ_classes"].update(s["may_differ_classes"])
+            acc["nontrivial"].update(tuple(tuple(x) if isinstance(x, list) else x for x in t) for t in s["nontrivial"])
+        per_member[res["tag"]] = dict(instances=res["n_instances"], sites=res["n_sites"],
+                                      judged=res["stats"]["evaluations"], link_rounds=res["rounds"],
+                                      wall_s=round(res["wall"], 1),
+                                      violating=sum(p["count"] for p in res["viol"]))
         if res["unevaluable"]:
             uneval[res["tag"]] = res["unevaluable"][-400:]
+        for k, v in res["mix_unevaluable"].items():
+            mix_uneval[f"{res['tag']}:{k}"] = v
         for k, v in res["gnu_rejects"].items():
             gnu_rej.setdefault(k, dict(v, members=0))["members"] += 1
         for k, v in res["wild_rejects"].items():
             wild_rej.setdefault(k, dict(v, members=0))["members"] += 1
         samples.extend(dict(member=res["tag"], **x) for x in res.get("sample", [])[:1])
-        for key, what, idx, n in res["viol"]:
-            replay_doc = {"member": cfg, "instance": idx,
-                          "how": "checks/c38.py --replay <this file> rebuilds the member restricted to the "
-                                 "instance (then the whole member) with wild and GNU ld and re-judges it"}
-            if key not in seen_keys:
-                seen_keys[key] = 0
-                chk.violation(key, f"[{n} instances in {res['tag']}] {what}", replay_doc)
-            seen_keys[key] += n
+        records.extend((res, p) for p in res["viol"])
         if res.get("wild_startup"):
             chk.violation(f"wild-program-does-not-start:{res['tag']}", res["wild_startup"],
                           {"member": cfg, "instance": None})
+    present = {p["own"] for _, p in records}
+    per_key, folded_from = {}, {}
+    for res, p in records:
+        key = folded_key(p, present)
+        if key != p["own"]:
+            folded_from.setdefault(key, set()).add(p["own"])
+        cur = per_key.get(key)
+        # representative: a record whose own key is the final key, fewest sites
+        rank = (key != p["own"], p["nsites"])
+        if cur is None or rank < cur[0]:
+            per_key[key] = (rank, res, p)
+    inst_per_key = {}
+    for res, p in records:
+        k = folded_key(p, present)
+        inst_per_key[k] = inst_per_key.get(k, 0) + p["count"]
+    for key in sorted(per_key):
+        _, res, p = per_key[key]
+        also = sorted(folded_from.get(key, ()))
+        more = f" (also counted here: {len(also)} variant/form/mix keys, e.g. {also[:3]})" if also else ""
+        chk.violation(key, f"[{inst_per_key[key]} instance evaluations; this one in {res['tag']}"
+                           f"{' ' + p['mix'] if p['mix'] else ''}] {p['what']}{more}",
+                      {"member": res["cfg"], "instance": p["idx"], "own_key": p["own"],
+                       "how": "checks/c38.py --replay <this file> rebuilds the member restricted to the instance "
+                              "(then the whole member) with wild and GNU ld, runs the all-wild and the two "
+                              "mixed programs and re-judges them"})
     if len(uneval) == len(mem):
         chk.machinery(f"no member could be evaluated: {list(uneval.items())[:2]}")
     chk.coverage = {
         "evaluations": tot["evaluations"],
         "distinct_nontrivial": len(tot["nontrivial"]),
         "rule": "one evaluation = one entity instance (kind x definer x use-set of E x of A x of B) in one member "
-                "(E kind x binding x variant), judged on all of its sites; non-trivial and distinct = distinct "
-                "(member, kind, use-triple) whose address is taken in at least two different modules and on "
-                "which GNU ld's program shows one single address",
-        "members": len(mem), "members_unevaluable": uneval,
+                "(E kind x binding x variant), judged on all of its sites in the all-wild program; non-trivial "
+                "and distinct = distinct (member, kind, use-triple) whose address is taken in at least two "
+                "different modules and on which GNU ld's program shows one single address",
+        "members": len(mem), "members_unevaluable": uneval, "mixed_programs_unevaluable": mix_uneval,
         "instances_generated": n_inst, "sites_generated": n_sites,
         "site_pairs_compared": tot["pairs"], "reads_after_write_compared": tot["write_reads"],
+        "reads_after_write_not_seeing_it": tot["write_invisible_reads"],
+        "reads_clobbered_by_another_instance_not_judged": tot["clobbered_by_other_instance"],
+        "mixed_program_evaluations": mtot["evaluations"], "mixed_site_pairs_compared": mtot["pairs"],
         "excluded_may_differ_instances": tot["may_differ_instances"],
-        "excluded_may_differ_classes": sorted(tot["may_differ_classes"])[:80],
+        "excluded_may_differ_classes": sorted(tot["may_differ_classes"])[:120],
         "excluded_gnu_reads_wrong": tot["excluded_gnu_read"],
         "excluded_gnu_write_invisible": tot["excluded_gnu_write_invisible"],
         "excluded_gnu_crash": tot["excluded_gnu_crash"], "incomplete_instances": tot["incomplete"],
@@ -588,12 +717,15 @@ def main():
         "gnu_ld_rejects": gnu_rej, "wild_rejects_counted_not_judged": wild_rej,
         "static_canonical_plt_checked": tot["static_canonical_plt"],
         "static_copyreloc_checked": tot["static_copyreloc"], "static_library_refs_checked": tot["static_lib_refs"],
-        "violating_instances_per_key": seen_keys,
+        "static_outputs_unreadable": tot["static_unreadable"],
+        "violating_instance_evaluations_per_key": inst_per_key,
+        "keys_folded": {k: sorted(v) for k, v in folded_from.items()},
         "subprocesses": spawns, "per_member": per_member, "samples": samples[:12],
-        "exhaustive": not uneval,
-        "explanation": "every member of the stated product is generated, linked by wild (3 links) and GNU ld "
-                       "(3 links) and both programs are run natively; the quick tier restricts the product to "
-                       "kinds {function, data}, lazy binding, no variant flags and the core forms",
+        "exhaustive": not uneval and not mix_uneval,
+        "explanation": "every member of the stated product is generated, linked by wild (3 links, in-process "
+                       "server) and GNU ld (3 links); the all-wild, all-GNU and two mixed programs (wild's E with "
+                       "GNU ld's libraries and vice versa) are run natively; the quick tier restricts the product "
+                       "to kinds {function, data}, lazy binding, no variant flags and the core forms",
     }
     chk.assumptions = [
         "GNU ld 2.40 + glibc 2.36 ld.so as the reference for where ELF semantics allow views to differ",
@@ -601,6 +733,10 @@ def main():
         "whether a module links depends only on the entity kind and that module's own uses of it (used to drop "
         "all instances sharing a rejected (kind, module, use-set))",
         "single thread: TLS addresses are compared within the initial thread only",
+        "forms excluded by rule because no linker can give them one address: PC-relative lea of another module's "
+        "function (non-PIE: ambiguous with a call; PIE: not linkable), direct references from E to A's protected "
+        "symbols, direct data references under -z nocopyreloc, PC-relative references from a library to a "
+        "symbol it cannot bind locally",
     ]
     chk.finish()
 
